@@ -54,3 +54,18 @@ package keeper
 //@        epochOf(ctx, epochInfo.Identifier).CurrentEpochStartTime == epochInfo.CurrentEpochStartTime &&
 //@        epochOf(ctx, epochInfo.Identifier).EpochCountingStarted == epochInfo.EpochCountingStarted &&
 //@        epochOf(ctx, epochInfo.Identifier).CurrentEpochStartHeight == ite(epochInfo.CurrentEpochStartHeight == 0, ctx.height, epochInfo.CurrentEpochStartHeight)
+
+// C15 (each identifier's clock runs on its own stored record): the record handed to the visitor for an identifier is
+// the decoding of THAT identifier's stored bytes and nothing else - no field is carried over from the record of the
+// identifier visited before (the generated Unmarshal does not reset its target: a zero field keeps what the target held).
+// (The visitor's own effects are not described: the clause below compares, within one iteration and before the visitor
+// runs, what it is about to be handed with what was just read.)
+//@ func (Keeper).IterateEpochInfos#fn
+//@   flag assumed
+//@   modifies trace
+
+//@ func (Keeper).IterateEpochInfos
+//@   flag noframe
+//@   before[C15.iei.own] #fn requires arg_epochInfo == unm["x/epochs/types.EpochInfo"](res_Value_0)
+//@ loop #1
+//@   invariant true
